@@ -24,6 +24,9 @@
     Avt.Props.C11.C11_pen_dump                Pen.dump: the SGR parameter list decodes to ops that turn ANY pen
                                               into the dumped pen (parameter level)
     Avt.Props.C11.C11_pen_dump_chars          … at character level, through the parser
+    Avt.Props.C11.C11_dump_blank_partial      END TO END (restore half) for the power-on screen of any size and limit
+                                              with an ARBITRARY pen and the parser in ANY state: dump() fed to a
+                                              fresh terminal restores the state up to normD
     Avt.Props.C11.C11_norm_obs                normD-equal states are Obs-equal
     Avt.Props.C11.C11_normP_sound             normal-form soundness of the PARSER, every character (over the
                                               generated tables): parsers agreeing up to dead registers emit the
@@ -40,15 +43,23 @@
   plus the same evaluation on a faithful neighbour of each (`KF1_neighbour_ok`, …) showing the classifier is
   not vacuous.
 
-  Missing for the full theorem: `buffer_dump` (row content with pen runs and REP compression), the
-  terminal-level effect of each of the 14 steps, and `C11_norm_sound` for the buffer-touching functions and
-  for the parser's dead registers.  Those rest on the correspondence + spec-on-impl layers
-  (the oracle checks `normD`-equality after the restore AND after every probe/continuation, i.e. it tests
-  `C11_dump_full` and `C11_norm_sound` on the implementation).
+  Missing for the full theorem `C11_dump_full`: `buffer_dump` (row content with pen runs and REP
+  compression, CRLF only after unwrapped rows) and the terminal-level effect of steps 2–8 and 10–14 on
+  non-default states (tab stops, the two saved contexts, origin mode, margins, charsets, modes); their
+  character-level halves are instances of `C11_csi_roundtrip` / `C11_pen_dump_chars` / closed strings.
+  Missing for `C11_norm_sound`: the buffer-touching functions (print, LF/RI, scrolls, erase/insert/delete,
+  REP, DECALN), the alternate-screen switches and RIS.  For all of them except RIS the frame lemma of
+  Avt/Lemmas/FrameExec.lean (`Avt.Frame.execute_rel`) already shows that scrollback, limits, trim flag
+  and dirty flags are never read; what it does not cover is the deadness of the parked alternate buffer
+  and the clamping of the parked saved context, which `normD` also erases.
+  Those parts rest on the correspondence + spec-on-impl layers: the oracle checks `normD`-equality after
+  the restore AND after every probe/continuation, i.e. it tests `C11_dump_full` and `C11_norm_sound`
+  on the implementation.
 -/
 import Avt.Lemmas.C11Pen
 import Avt.Lemmas.C11ParserNorm
 import Avt.Lemmas.C11Witness
+import Avt.Lemmas.C11Blank
 
 namespace Avt.Props.C11
 open Avt Avt.Spec.C11 Avt.Lemmas.C11
@@ -122,6 +133,24 @@ theorem C11_pen_dump_chars (p : Pen) (h : PenOK p) (q0 : Parser) (hG : q0.state 
       ∧ ∀ t : Terminal, t.execute (.sgr ops) = some { t with pen := p } := by
   obtain ⟨d, q, hd, hf, hq, hops⟩ := pfeed_pen_dump p h q0 hG hP
   exact ⟨d, q, penOps p, hd, hf, hq, fun t => by simp [Terminal.execute, Terminal.sgr, hops]⟩
+
+/-- **C11, restore half, proved for power-on screens** (`C11_dump_full` restricted to: both screens
+    blank, cursor home, default modes, margins, tab stops, character sets and saved contexts — i.e. the
+    terminal `Vt::new` builds, of ANY size `≥ 1x1` and ANY scrollback limit — but with an ARBITRARY pen and the
+    parser in ANY of its 14 states with arbitrary register contents, e.g. cut inside `CSI ?25;1:2`).
+    Composes `Terminal.dump`, `Pen.dump`, `Parser.dump`, the parser, `Terminal.execute`, the
+    `changes()`/`gc()` tail of `feed_str`, and `normD`. -/
+theorem C11_dump_blank_partial (cols rows : Nat) (lim : Option Nat) (pen : Pen) (p : Parser)
+    (hc : 1 ≤ cols) (hr : 1 ≤ rows) (hpen : PenOK pen) (hinv : PInv p = true) (hreg : PRegOK p = true) :
+    ∃ r, restoreOf { parser := p, terminal := blankT cols rows lim pen } = some r
+      ∧ normD r = normD { parser := p, terminal := blankT cols rows lim pen } :=
+  restore_blank cols rows lim pen p hc hr hpen hinv hreg
+
+/-- `blankT` with the default pen is what `Vt::new` builds -/
+theorem C11_blankT_new (cols rows : Nat) (lim : Option Nat) (hr : 1 ≤ rows) :
+    Vt.new cols rows lim = some { parser := Parser.new, terminal := blankT cols rows lim {} } := by
+  simp only [Vt.new, new_eq_freshT cols rows lim hr, Option.map_some]
+  rfl
 
 /-- equal normal forms show the same through the public API -/
 theorem C11_norm_obs (a b : Vt) (h : normD a = normD b) : obs a = obs b := by
